@@ -1,6 +1,6 @@
 """C14 (and parts of C13/C17): bounded indexed writes, input immutability, normaliser output buffers, no abort on the release path."""
 from .frontend import AnalysisBroken
-from .ir import base_name, const_of, DATA_STRUCT
+from .ir import PUBLIC_API as PUBLIC_API_NAMES, base_name, const_of, DATA_STRUCT
 from .rules_cmp import inst_of, addr_base, vk, cond_class, cond_facts, cursor_family
 from .rules_effects import written_pointers
 from . import bitflow
@@ -261,8 +261,8 @@ def counters(ctx, rep):
         rep.info['indexed_sites'] = ninv
 
 
-def input_immutability(ctx, rep):
-    for cfg in ctx.configs('effect'):
+def input_immutability(ctx, rep, cfgs=None):
+    for cfg in cfgs or ctx.configs('effect'):
         P = ctx.prog(cfg); pts = P.points_to()
         if cfg not in rep.configs: rep.configs.append(cfg)
         rep.rule('CONST-1', 'inputs are not modified: for every externally visible function and every parameter declared pointer-to-const (phrase, '
@@ -322,6 +322,34 @@ def input_immutability(ctx, rep):
         allowed = {'polyseed_crypt', 'polyseed_free', 'polyseed_poly_to_data', 'polyseed_data_load'}
         rep.check(set(mut) <= allowed, 'functions taking a mutable seed: %s' % mut, 'include/polyseed.h', 'mutable seed parameter in %s' % sorted(set(mut) - allowed),
                   sample=mut, key='CONST-1|mutators')
+
+
+def byte_buffer_alignment(ctx, rep, cfgs=None):
+    """ALIGN-1: byte buffers are accessed bytewise"""
+    for cfg in cfgs or ['NsS']:
+        P = ctx.prog(cfg); pts = P.points_to()
+        if cfg not in rep.configs: rep.configs.append(cfg)
+        rep.rule('ALIGN-1', 'caller-supplied byte buffers (serialized seed, phrase, password, key and phrase outputs: every `uint8_t*` / `char*` parameter of the public API) carry no '
+                 'alignment guarantee: every load / store that may target one of them (points-to) and is wider than one byte must be declared align 1 by the compiler - i.e. it is a '
+                 'memcpy-style access, not a dereference of a pointer cast to a wider type, which is undefined behaviour at odd addresses and depends on the host\'s byte order')
+        bufs = set()
+        for f in P.defined.values():
+            if f.local or f.name not in PUBLIC_API_NAMES: continue
+            for n, p_ in enumerate(f.params):
+                if p_['ty'] == 'i8*': bufs |= {('ext', f.name, n), ('extdeep', f.name, n)}
+        rep.instances(len(bufs) // 2, 5, 'byte-buffer parameters of the public API')
+        n = 0
+        for f in P.defined.values():
+            for i in f.all_insts():
+                if i.op not in ('load', 'store') or (i.d.get('size') or 1) <= 1: continue
+                addr = i.ops[0] if i.op == 'load' else i.ops[1]
+                hit = [o for o in pts.of(f, addr) if o in bufs]
+                if not hit: continue
+                n += 1
+                rep.check((i.d.get('align') or 1) == 1, '%d-byte %s at %s into a caller\'s byte buffer is alignment-free' % (i.d['size'], i.op, i.loc), i.loc,
+                          '%s: %d-byte %s through a cast of a byte pointer (align %s)' % (base_name(f.name), i.d['size'], i.op, i.d.get('align')), detail={'object': str(hit[0]), 'align': i.d.get('align')},
+                          key='ALIGN-1|%s|%s' % (base_name(f.name), i.loc.split(':')[-1]))
+        if not n: rep.ok('no multi-byte access to a caller byte buffer at all (all accesses are bytewise or through memcpy / memset / memcmp)', {'config': cfg})
 
 
 def normaliser_buffers(ctx, rep):
